@@ -120,3 +120,134 @@ Proof.
     unfold chk_lvs, levels_upto. rewrite <- Hlen. apply chk_lvs_combine.
 Qed.
 End Tool.
+
+(* ------------------------------------------------------------------ *)
+(** * The converted plotfile is an admissible input of the other tool theorems *)
+From AK Require Import Writers.ColanderSpec Writers.ColanderPipeline Writers.ColanderToolProofs Writers.ChefTokenProofs Writers.RelistProofs.
+
+Section Good.
+Variable frepr : token -> token.
+Variable dx_row : Z -> list token.
+Variable bounds : Z -> list (list (token * token)).
+Variable species : list bytes.
+Variable do_gradp do_ir : bool.
+Variable floored : nat -> option (list (list bytes)).
+Variable y_start nspecies : Z.
+
+Let fields := chk_fields species do_gradp do_ir.
+
+Lemma word_rows_ok (rows : list (list bytes)) :
+  Forall (Forall (fun t => float_ok t = true /\ no_char ","%char t)) (map (map word_token) rows).
+Proof.
+  apply Forall_map. apply Forall_forall. intros r _. apply Forall_map. apply Forall_forall. intros w _.
+  split; [apply word_token_float_ok | apply word_token_no_comma].
+Qed.
+
+Lemma combine_seq_nth_error {A} : forall (l : list A) s kl,
+  In kl (combine (seq s (length l)) l) -> nth_error l (fst kl - s) = Some (snd kl) /\ (s <= fst kl)%nat.
+Proof.
+  induction l as [|a l IH]; intros s kl H; [destruct H|].
+  cbn [length seq combine] in H. destruct H as [<- | H].
+  - cbn [fst snd]. rewrite Nat.sub_diag. split; [reflexivity|lia].
+  - destruct (IH (S s) kl H) as [E Hle]. split; [|lia].
+    replace (fst kl - s)%nat with (S (fst kl - S s))%nat by lia. exact E.
+Qed.
+
+(* every converted box holds one component per output field, every level has a box *)
+Definition counts_ok (c : achk) : Prop :=
+  forall k al, nth_error (ac_levels c) k = Some al ->
+    lv_fabs (al_state al) <> [] /\
+    forall i, (i < length (lv_fabs (al_state al)))%nat -> blen (al_comps al i) = blen fields.
+
+Theorem conv_pf_good : forall c,
+  wf_written frepr dx_row bounds (ac_h c) ->
+  length (ac_levels c) = Z.to_nat (ch_max_level (ac_h c) + 1) ->
+  (forall k al, nth_error (ac_levels c) k = Some al -> level_ok do_gradp do_ir floored y_start nspecies c k al) ->
+  counts_ok c ->
+  good (conv_pf frepr dx_row bounds species do_gradp do_ir c).
+Proof.
+  intros c Hw Hlen Hlv Hcnt.
+  pose proof Hw as (Hml & Hnd & Hg & _).
+  unfold good. split; [|split; [|split]].
+  - (* wf_plotfile *)
+    unfold wf_plotfile. cbn [conv_pf pf_g pf_levels]. split; [|split; [|split]].
+    + apply (chk_g_wf frepr dx_row bounds). exact Hw.
+    + unfold blen. rewrite map_length, combine_length, seq_length, Nat.min_id, Hlen. cbn [chk_g g_max_level]. lia.
+    + rewrite map_map. cbn [conv_level conv_plevel pl_boxes chk_lb lb_cell_dir].
+      assert (E : forall (l : list chk_alevel) s,
+                 NoDup (map (fun x : nat * chk_alevel => bs "Level_" ++ str_of_Z (Z.of_nat (fst x))) (combine (seq s (length l)) l))).
+      { induction l as [|a l IH]; intros s; [constructor|].
+        cbn [length seq combine map fst]. constructor; [|apply IH].
+        intros Hin. apply in_map_iff in Hin. destruct Hin as (kl & Hk & Hin).
+        apply (level_name_inj (Z.of_nat (fst kl)) (Z.of_nat s)) in Hk.
+        destruct (combine_seq_nth_error l (S s) kl Hin) as [_ Hle]. lia. }
+      apply E.
+    + apply Forall_map. apply Forall_forall. intros kl Hin.
+      destruct (combine_seq_nth_error (ac_levels c) 0 kl Hin) as [Hk _]. rewrite Nat.sub_0_r in Hk.
+      destruct (Hlv _ _ Hk) as (Hwf & Hb & Hconv & Hnames & Hok).
+      destruct (Hcnt _ _ Hk) as (Hne & Hnc).
+      assert (Hlt : (fst kl < length (ac_levels c))%nat) by (apply nth_error_Some; rewrite Hk; discriminate).
+      assert (Hkl : 0 <= Z.of_nat (fst kl) <= ch_max_level (ac_h c)) by lia.
+      unfold wf_plevel, conv_level. cbn [conv_plevel pl_boxes pl_level pl_mins pl_maxs].
+      cbn [chk_g g_ndims]. rewrite Hnd.
+      split.
+      { pose proof (chk_lvs_wf frepr dx_row bounds (ac_h c) Hw) as HF. unfold chk_lvs in HF.
+        rewrite Forall_map, Forall_forall in HF. apply HF. unfold levels_upto. apply in_map.
+        apply in_seq. lia. }
+      split.
+      { exact (proj2 (convert_level_dir_spec (al_gradp_files (snd kl)) (al_ir_files (snd kl)) (al_gradp_cells (snd kl))
+                        (al_ir_cells (snd kl)) do_gradp do_ir (floored (fst kl)) y_start nspecies (al_state (snd kl)) Hwf
+                        (boxes_at c (fst kl)) Hb (al_comps (snd kl)) Hconv Hnames Hok 0
+                        (chk_lb frepr bounds (ac_h c) (Z.of_nat (fst kl))))). }
+      cbn [conv_listed relisted conv_lv renamed lv_fabs].
+      split.
+      { intros E. apply (f_equal (@length fab)) in E. rewrite map_length, seq_length in E.
+        destruct (lv_fabs (al_state (snd kl))); [congruence|discriminate E]. }
+      split.
+      { cbn [chk_lb lb_ncells]. unfold blen. rewrite map_length, seq_length. unfold boxes_at in Hb.
+        rewrite Nat2Z.id, Hb. reflexivity. }
+      split.
+      { apply Forall_map. apply Forall_forall. intros i Hi. apply in_seq in Hi.
+        unfold conv_i, conv_fab. cbn [fab_nc]. unfold pf_nfields. cbn [conv_pf pf_g chk_g g_names]. apply Hnc. lia. }
+      split; [rewrite !map_length; reflexivity|]. split; [rewrite !map_length; reflexivity|].
+      split; [rewrite <- map_map; apply word_rows_ok | rewrite <- map_map; apply word_rows_ok].
+  - (* std_dirs *)
+    intros k pl Hk. cbn [conv_pf pf_levels] in Hk.
+    rewrite nth_error_map in Hk. destruct (nth_error (combine (seq 0 (length (ac_levels c))) (ac_levels c)) k) as [kl|] eqn:E; [|discriminate].
+    cbn [option_map] in Hk. injection Hk as <-.
+    cbn [conv_level conv_plevel pl_boxes chk_lb lb_cell_dir].
+    pose proof (nth_error_combine_seq' (ac_levels c) 0 k kl E) as [Hf _]. rewrite Hf. reflexivity.
+  - (* wf_counts *)
+    unfold wf_counts. cbv zeta. cbn [conv_pf pf_g chk_g g_grid_hi g_max_level g_steps g_ndims].
+    unfold blen, levels_upto. rewrite !map_length, seq_length. split; [lia|]. split; [lia|]. right. exact Hnd.
+  - (* wf_rows *)
+    unfold wf_rows. cbn [conv_pf pf_levels]. apply Forall_map. apply Forall_forall. intros kl Hin.
+    destruct (combine_seq_nth_error (ac_levels c) 0 kl Hin) as [Hk _]. rewrite Nat.sub_0_r in Hk.
+    destruct (Hcnt _ _ Hk) as (_ & Hnc).
+    cbn [conv_level conv_plevel pl_mins pl_maxs]. unfold pf_nfields. cbn [conv_pf pf_g chk_g g_names].
+    split; apply Forall_map; apply Forall_forall; intros i Hi; apply in_seq in Hi;
+      unfold blen; rewrite !map_length; apply Hnc; lia.
+Qed.
+End Good.
+
+(* a conversion followed by a strain *)
+Theorem chk2plt_then_colander : forall whole to_int frepr dx_row bounds species do_gradp do_ir floored y_start nspecies
+    n_state n_gradp n_ir c vars limit lim d,
+  wf_chk whole to_int (ac_h c) -> wf_written frepr dx_row bounds (ac_h c) ->
+  chk_nfields_out n_state n_gradp n_ir do_gradp do_ir = blen (chk_fields species do_gradp do_ir) ->
+  length (ac_levels c) = Z.to_nat (ch_max_level (ac_h c) + 1) ->
+  (forall k al, nth_error (ac_levels c) k = Some al -> level_ok do_gradp do_ir floored y_start nspecies c k al) ->
+  counts_ok species do_gradp do_ir c ->
+  chk2plt_tool whole to_int frepr dx_row bounds species do_gradp do_ir floored y_start nspecies n_state n_gradp n_ir (achk_disk c) = Some d ->
+  eff_limit (ch_max_level (ac_h c)) limit = Some lim -> 0 <= lim ->
+  fst (resolve_vars (field_keys (chk_fields species do_gradp do_ir) []) vars) <> [] ->
+  colander vars limit d = Some (pf_disk (colander_spec vars lim (conv_pf frepr dx_row bounds species do_gradp do_ir c))).
+Proof.
+  intros whole to_int frepr dx_row bounds species dg di fl ys ns n1 n2 n3 c vars limit lim d
+         Hwf Hw Hn Hlen Hlv Hcnt Htool Heff Hlim Hvars.
+  pose proof Hw as (_ & _ & Hg & _).
+  rewrite (chk2plt_refines whole to_int frepr dx_row bounds species dg di fl ys ns n1 n2 n3 c Hwf Hn Hg Hlen Hlv) in Htool.
+  injection Htool as <-.
+  destruct (conv_pf_good frepr dx_row bounds species dg di fl ys ns c Hw Hlen Hlv Hcnt) as (G1 & G2 & G3 & G4).
+  apply colander_refines; assumption.
+Qed.
